@@ -180,9 +180,11 @@ def length_field_mutants(data, regs, rng, per_region):
 # that extends a 100 KiB input to a header-declared 4 GiB must fail with EFBIG instead of eating memory). Set through
 # the shell rather than preexec_fn (the supervisor is multi-threaded).
 LIMITED = ["/bin/sh", "-c", "trap '' XFSZ; ulimit -c 0; ulimit -f 2097152; ulimit -v 12582912; exec \"$@\"", "sh"]
+# AddressSanitizer reserves terabytes of address space for its shadow memory: no ulimit -v there
+LIMITED_ASAN = ["/bin/sh", "-c", "trap '' XFSZ; ulimit -c 0; ulimit -f 2097152; exec \"$@\"", "sh"]
 
 
-def run_plan(bindir, mode, base, mutants, scratch, workers=None, stall_s=60, binary="mvprobe", extra_env=None, extra_args=None):
+def run_plan(bindir, mode, base, mutants, scratch, workers=None, stall_s=60, binary="mvprobe", extra_env=None, extra_args=None, wrapper=None, limited=None):
     """Run every mutant through `mvprobe fault`. Returns (results by id, baseline, deaths).
     A process that dies or stalls is restarted after the mutant that was in flight; that mutant's
     result is {"died": {...}} (signal / exit code / stall) with the API call that was running."""
@@ -215,7 +217,7 @@ def run_plan(bindir, mode, base, mutants, scratch, workers=None, stall_s=60, bin
             errf = open(os.path.join(wd, "stderr.txt"), "wb")
             argv = [os.path.join(bindir, binary), "fault", "--mode", mode, "--base", base, "--plan", plan, "--results", res, "--scratch", wd]
             argv += extra_args or []
-            p = subprocess.Popen(LIMITED + argv, env=env, stdout=subprocess.DEVNULL, stderr=errf)
+            p = subprocess.Popen((limited or LIMITED) + (wrapper or []) + argv, env=env, stdout=subprocess.DEVNULL, stderr=errf)
             last_size, last_change, stalled = -1, time.time(), False
             while p.poll() is None:
                 time.sleep(0.2)
@@ -461,6 +463,87 @@ def judge_c22(m, r, size):
     return out, inconclusive
 
 
+def _sanitizer_report(name, seed, rule):
+    rep = _report(name, seed, rule)
+    rep["required_counters"] = ["inputs_probed"]
+    return rep
+
+
+def sanitizer_shards(seed, scratch, groups, rng):
+    """The same probe under AddressSanitizer (nightly -Zsanitizer=address, memvid-core and every Rust dependency instrumented)
+    and, on a much smaller shard, under valgrind memcheck (sees the uninstrumented C code of zstd too)."""
+    reports, notes = [], []
+    # ---- ASan
+    try:
+        asan_dir = C.build(toolchain="nightly", extra=["--target", "x86_64-unknown-linux-gnu"], target_dir=os.path.join(C.HARNESS, "target-asan"), bins=["mvprobe"],
+                           rustflags="-Zsanitizer=address -Cforce-frame-pointers=yes --cfg memvid_verif", subdir="x86_64-unknown-linux-gnu/release")
+    except C.Inconclusive as e:
+        notes.append(f"ASan build failed: {str(e)[-300:]}")
+        asan_dir = None
+    if asan_dir:
+        rep = _sanitizer_report("no-panic-no-hang@asan", seed, "a sample of the same inputs through the same entry points in a build instrumented with AddressSanitizer (abort_on_error=1, "
+                                "detect_leaks=0); an ASan report kills the probe and is keyed by its bug type and first in-repo frame; a case is one input; distinct = distinct inputs")
+        for gi, (path, fseed, ops, profile, muts) in enumerate(groups[:2]):
+            sample = rng.sample(muts, min(len(muts), 1500))
+            for i, m in enumerate(sample):
+                m = dict(m)
+                sample[i] = m
+            results, _, deaths = run_plan(asan_dir, "c22", path, sample, os.path.join(scratch, f"asan{gi}"), stall_s=240,
+                                          extra_env={"ASAN_OPTIONS": "abort_on_error=1:detect_leaks=0:allocator_may_return_null=1:symbolize=1", "ASAN_SYMBOLIZER_PATH": "/usr/bin/llvm-symbolizer-14"}, limited=LIMITED_ASAN)
+            for m in sample:
+                r = results.get(m["id"])
+                if r is None or "skipped" in r:
+                    continue
+                rep["evaluations"] += 1
+                rep["distinct_nontrivial"] += 1
+                _count(rep, "inputs_probed")
+                detail = {"mode": "fault", "check": "c22", "corpus_seed": fseed, "corpus_ops": ops, "corpus_profile": profile, "mutant": describe(m), "under": "asan"}
+                if "died" in r:
+                    err = r["died"].get("stderr", "")
+                    if "AddressSanitizer" in err:
+                        bug = "unknown"
+                        for line in err.splitlines():
+                            if "ERROR: AddressSanitizer:" in line:
+                                bug = line.split("AddressSanitizer:")[1].split()[0]
+                        frame = next((l.strip().split(" in ")[-1].split(" ")[0] for l in err.splitlines() if "memvid_core" in l), "no-repo-frame")
+                        _violation(rep, f"C22:asan:{bug}:{frame[:80]}", f"file seed {fseed}: {describe(m)} -> AddressSanitizer {bug} in {r['died'].get('api')}: {err[-300:]}", detail)
+                    elif r["died"]["how"] == "stall":
+                        rep["inconclusive"].append({"case": f"asan file {fseed} mutant {describe(m)}", "reason": "no progress for 240 s under ASan"})
+                    else:
+                        _violation(rep, f"C22:process-died:{r['died']['how']}:{r['died'].get('api')}", f"file seed {fseed} (ASan build): {describe(m)} -> the process died ({r['died']['how']}): {err[-200:]}", detail)
+                for p in r.get("panics") or []:
+                    _violation(rep, f"C22:panic:{p.get('panic_site') or 'unknown'}", f"file seed {fseed} (ASan build): {describe(m)} -> {p.get('api')} panicked at {p.get('panic_site')}", detail)
+        rep["samples"].append({"build": "nightly -Zsanitizer=address --target x86_64-unknown-linux-gnu", "inputs": rep["counters"].get("inputs_probed", 0)})
+        reports.append(rep)
+    # ---- valgrind memcheck on the plain build
+    bindir = os.path.join(C.HARNESS, "target", "release")
+    rep = _sanitizer_report("no-panic-no-hang@memcheck", seed, "a small sample of the inputs through the same entry points under valgrind memcheck on the uninstrumented build (covers the C code of "
+                            "zstd, which ASan does not instrument); any memcheck error makes the probe exit with status 99; a case is one input; distinct = distinct inputs")
+    path, fseed, ops, profile, muts = groups[0]
+    sample = [dict(m) for m in rng.sample(muts, min(len(muts), 48))]
+    results, _, deaths = run_plan(bindir, "c22", path, sample, os.path.join(scratch, "memcheck"), workers=16, stall_s=900, limited=LIMITED_ASAN, wrapper=["valgrind", "-q", "--error-exitcode=99", "--exit-on-first-error=yes"])
+    for m in sample:
+        r = results.get(m["id"])
+        if r is None or "skipped" in r:
+            continue
+        rep["evaluations"] += 1
+        rep["distinct_nontrivial"] += 1
+        _count(rep, "inputs_probed")
+        detail = {"mode": "fault", "check": "c22", "corpus_seed": fseed, "corpus_ops": ops, "corpus_profile": profile, "mutant": describe(m), "under": "memcheck"}
+        if "died" in r:
+            d = r["died"]
+            if d["how"] == "exit-99":
+                first = next((l for l in d.get("stderr", "").splitlines() if "==" in l and ("Invalid" in l or "uninitialised" in l or "Conditional" in l)), "memcheck error")
+                _violation(rep, f"C22:memcheck:{first.split('== ')[-1][:60]}", f"file seed {fseed}: {describe(m)} -> valgrind memcheck error inside {d.get('api')}: {d.get('stderr', '')[-300:]}", detail)
+            elif d["how"] == "stall":
+                rep["inconclusive"].append({"case": f"memcheck file {fseed} mutant {describe(m)}", "reason": "no progress for 900 s under valgrind"})
+            else:
+                _violation(rep, f"C22:process-died:{d['how']}:{d.get('api')}", f"file seed {fseed} (valgrind): {describe(m)} -> the process died ({d['how']}): {d.get('stderr', '')[-200:]}", detail)
+    rep["samples"].append({"tool": "valgrind 3.19 memcheck", "inputs": rep["counters"].get("inputs_probed", 0)})
+    reports.append(rep)
+    return reports, notes
+
+
 def c22(pid, tier, seed, scratch):
     bindir = C.build()
     rng = random.Random(seed)
@@ -505,7 +588,13 @@ def c22(pid, tier, seed, scratch):
         if len(rep["samples"]) < 3:
             rep["samples"].append({"corpus_seed": fseed, "file_bytes": size, "inputs": len(muts), "example_input": describe(muts[len(muts) // 3])})
     rep["counters"]["max_call_ms"] = slowest
-    return [rep], [], {"assumptions": ["time bound: no progress for 60 s on inputs whose base file is at most 256 KiB is a violation; above that size a stall is inconclusive",
+    reports = [rep]
+    notes = []
+    if tier == "thorough":
+        r2, n2 = sanitizer_shards(seed, scratch, groups, rng)
+        reports += r2
+        notes += n2
+    return reports, notes, {"assumptions": ["time bound: no progress for 60 s on inputs whose base file is at most 256 KiB is a violation; above that size a stall is inconclusive",
                                        "address space limited to 12 GiB and file size to 1 GiB per probe process (an attempt to grow a file beyond that fails with EFBIG); an allocation failure abort is reported as a process death",
                                        "the harness is built with debug assertions and overflow checks on, as the repository's own test profile is",
                                        "structure-aware mutation only; no coverage feedback"]}
